@@ -144,8 +144,10 @@ func genCase(t *rapid.T) *caseSpec {
 	return cs
 }
 
-// isMismatchError: an error with the mismatch code whose message is one of
-// the three data-integrity messages; kind "size" or "hash".
+// mismatchKind classifies the text of a data-integrity error ("size" /
+// "hash" / ""). Statistics only: the property fixes the CODE of a mismatch
+// error, not its wording nor which of two simultaneous mismatches (size and
+// hash) is reported, so no assertion depends on this.
 func mismatchKind(err error) string {
 	msg := status.Convert(err).Message()
 	switch {
@@ -229,7 +231,9 @@ func (k *checker) leaf(x ctx, r *bufzoo.Result) {
 			if !k.protoParses() || !bytes.Equal(want, r.Data) {
 				k.fail("%s returned a message that is not the content", where)
 			}
-		} else if !bytes.Equal(r.Data, k.expectedData(l)) {
+		} else if l.ArgsValid(cs.n) && !bytes.Equal(r.Data, k.expectedData(l)) {
+			// (with arguments outside the documented domain only clause (2)
+			// below constrains the bytes)
 			k.fail("%s completed with wrong bytes: got %x want %x", where, r.Data, k.expectedData(l))
 		}
 	}
@@ -240,31 +244,33 @@ func (k *checker) leaf(x ctx, r *bufzoo.Result) {
 			k.fail("%s handed out bytes that are not a prefix of the content at offset %d: %x", where, lo, seen)
 		}
 	}
-	// (3) the final portion is withheld from mismatching content.
-	if !cs.match {
+	// (3) the final portion is withheld from mismatching content: the
+	// consumer never holds all stated bytes of it. (Exception: the source
+	// fails right after handing out exactly the stated number of bytes and
+	// those bytes do have the stated hash - what the consumer can then
+	// observe is valid data followed by the source's I/O error; whether the
+	// never-delivered rest would have been surplus is unobservable.)
+	if !cs.match && !(cs.cls == clsIO && k.prefixMatches()) {
 		if need := cs.n - r.Off; need > 0 && r.Off >= 0 && int64(len(seen)) >= need {
 			k.fail("%s received all %d stated bytes (from offset %d) of mismatching content before the error %v", where, cs.n, r.Off, r.Err)
 		}
-		if cs.src.Kind == bufzoo.CASByteSlice && len(seen) > 0 {
-			k.fail("%s received %d bytes of an eagerly rejected byte slice", where, len(seen))
-		}
-		// Without an error handler in between, the validator sits directly
-		// on the source: the whole source chunk / source read that carries
-		// the last stated byte is held back. (With an error handler the
-		// validator sits above the re-chunked, stitched stream, so only the
-		// clause above applies.)
-		if !x.underHandler && cs.cls != clsIO && k.lastChunkStart >= 0 && len(seen) > 0 && r.Off+int64(len(seen)) > int64(k.lastChunkStart) {
-			k.fail("%s received bytes up to offset %d of mismatching content, but the source chunk holding the last stated byte starts at %d and must be withheld until validated",
-				where, r.Off+int64(len(seen)), k.lastChunkStart)
-		}
+		// How MUCH more than the last byte is held back (today: nothing at
+		// all of an eagerly rejected byte slice; the whole source read /
+		// chunk that carries the last stated byte when the validator sits
+		// directly on the source) is a layout decision of the
+		// implementation, not part of the property: counted only.
+		k.c.ClassIf(cs.src.Kind == bufzoo.CASByteSlice && len(seen) > 0, "impl_byteslice_not_rejected_eagerly")
+		k.c.ClassIf(!x.underHandler && cs.cls != clsIO && k.lastChunkStart >= 0 && len(seen) > 0 && r.Off+int64(len(seen)) > int64(k.lastChunkStart),
+			"impl_part_of_last_source_chunk_handed_out")
 	}
 
 	if l.Method == bufzoo.Discard {
 		return
 	}
-	if x.copyTooSmall && !r.Complete && r.Err != nil && status.Code(r.Err) == codes.InvalidArgument && strings.Contains(r.Err.Error(), "maximum") {
+	if x.copyTooSmall && !r.Complete && r.Err != nil {
 		// CloneCopy with a maximum below the stated size refused to copy
-		// (buffers that need no copy may ignore the maximum).
+		// (buffers that need no copy may ignore the maximum). Which error
+		// that is, is not C09's business.
 		k.c.Class("clonecopy_max_rejected")
 		return
 	}
@@ -279,37 +285,39 @@ func (k *checker) leaf(x ctx, r *bufzoo.Result) {
 		return
 	}
 
-	// (4) invalid arguments: an error (or, for ReadAt beyond the end, no data).
+	// (4) arguments outside the documented domain (negative offset, offset
+	// beyond the stated size, maximum size below the stated size): the
+	// property does not say how they are answered. Clauses (1)-(3) above
+	// still hold (no completion on mismatching content, only content bytes
+	// handed out, final portion withheld); rejection vs. an empty / the
+	// regular result is counted only.
 	if !argsOK {
-		if r.Complete {
-			if l.Method == bufzoo.ReadAt && l.Off > cs.n && len(r.Data) == 0 {
-				k.c.Class("readat_beyond_end_eof")
-				return
-			}
-			if l.Method == bufzoo.ToChunkReader && l.Off > cs.n && len(r.Data) == 0 {
-				// Stream clones do not call validateReaderOffset: a read
-				// beyond the end of (validated) content ends immediately
-				// without data instead of failing. No data is handed out,
-				// so C09 tolerates it; it is counted.
-				k.c.Class("chunkreader_beyond_end_eof")
-				return
-			}
-			k.fail("%s with invalid arguments (stated size %d) completed with %d bytes instead of failing", where, cs.n, len(r.Data))
+		switch {
+		case r.Complete && l.Method == bufzoo.ReadAt && l.Off > cs.n && len(r.Data) == 0:
+			k.c.Class("readat_beyond_end_eof")
+		case r.Complete && l.Method == bufzoo.ToChunkReader && l.Off > cs.n && len(r.Data) == 0:
+			k.c.Class("chunkreader_beyond_end_eof")
+		case r.Complete:
+			k.c.Class("invalid_args_completed")
+		case r.Err != nil:
+			k.c.Class("invalid_args_rejected")
+		default:
+			k.fail("%s reported neither completion nor an error", where)
 		}
-		if r.Err == nil {
-			k.fail("%s with invalid arguments reported neither data nor error", where)
-		}
-		k.legitError(x, where, r, argsOK)
-		k.c.Class("invalid_args_rejected")
 		return
 	}
 
 	// (5) completeness and error identity.
+	if !r.Complete && r.Err == nil {
+		k.fail("%s reported neither completion nor an error", where)
+	}
 	switch cs.cls {
 	case clsOK:
 		// Content is fine and the source never fails (before the end):
 		// the only legitimate reasons for not completing are created by
-		// the consumer itself.
+		// the consumer itself (a writer that fills up, a failing task, a
+		// ToProto of content that is not a message). Which error those
+		// produce is not part of C09.
 		protoBad := l.Method == bufzoo.ToProto && !k.protoParses()
 		switch {
 		case r.Complete:
@@ -321,12 +329,12 @@ func (k *checker) leaf(x ctx, r *bufzoo.Result) {
 			}
 			// Below a failing task a completion is tolerated here:
 			// how task errors surface is property C15's business.
-		case writerLimited && bufzoo.SameError(r.Err, bufzoo.WriterErr()):
-			if len(seen) > l.WriterLimit {
-				k.fail("%s: writer received %d bytes beyond its limit %d", where, len(seen), l.WriterLimit)
-			}
-		case x.taskFails && bufzoo.SameError(r.Err, bufzoo.TaskErr()):
-		case protoBad && status.Code(r.Err) == codes.InvalidArgument && strings.Contains(r.Err.Error(), "unmarshal"):
+		case writerLimited:
+			k.c.Class("writer_full_error")
+		case x.taskFails:
+			k.c.Class("task_error_instead_of_completion")
+		case protoBad:
+			k.c.Class("proto_unparsable_error")
 		default:
 			k.fail("%s: content has exactly the stated size and hash, source never fails, arguments valid, yet no successful completion: err=%v", where, r.Err)
 		}
@@ -334,21 +342,49 @@ func (k *checker) leaf(x ctx, r *bufzoo.Result) {
 		if r.Complete {
 			k.fail("%s completed although the source fails after %d of %d stated bytes", where, cs.src.FailAt, cs.n)
 		}
-		if !bufzoo.SameError(r.Err, cs.src.FailErr()) && !(writerLimited && bufzoo.SameError(r.Err, bufzoo.WriterErr())) && !k.taskErrorInstead(x, r) {
+		switch {
+		case bufzoo.SameError(r.Err, cs.src.FailErr()):
+		case writerLimited:
+			k.c.Class("writer_full_error")
+		case k.taskErrorInstead(x, r):
+		case k.mismatchKnownBeforeFailure() && status.Code(r.Err) == cs.code:
+			// all stated bytes were delivered before the source failed and
+			// they do not have the stated hash: both "mismatch" and "source
+			// I/O error" describe this stream.
+			k.c.Class("mismatch_reported_before_io_error")
+		default:
 			k.fail("%s: source read error not passed through unchanged: got %v want %v", where, r.Err, cs.src.FailErr())
 		}
 	case clsSize, clsHash:
 		if r.Complete {
 			k.fail("%s completed on mismatching content", where)
 		}
-		if writerLimited && bufzoo.SameError(r.Err, bufzoo.WriterErr()) {
-			break
+		switch {
+		case writerLimited:
+			k.c.Class("writer_full_error")
+		case k.taskErrorInstead(x, r):
+		case cs.src.FailAt >= 0 && bufzoo.SameError(r.Err, cs.src.FailErr()):
+			// the source also fails (beyond the stated size): an
+			// implementation that reads ahead may meet that error first.
+			k.c.Class("io_error_reported_before_mismatch")
+		default:
+			k.mismatchError(where, r.Err)
 		}
-		if k.taskErrorInstead(x, r) {
-			break
-		}
-		k.mismatchError(where, r.Err)
 	}
+}
+
+// prefixMatches: the first n (= stated size) bytes of the stream exist and
+// have the stated hash.
+func (k *checker) prefixMatches() bool {
+	cs := k.cs
+	return int64(len(cs.stream)) >= cs.n && bufzoo.Matches(cs.stated, cs.stream[:cs.n])
+}
+
+// mismatchKnownBeforeFailure: the source fails only after it has handed out
+// all stated bytes, and those do not have the stated hash.
+func (k *checker) mismatchKnownBeforeFailure() bool {
+	cs := k.cs
+	return cs.src.FailAt >= 0 && int64(cs.src.FailAt) >= cs.n && int64(len(cs.stream)) >= cs.n && !k.prefixMatches()
 }
 
 // taskErrorInstead: below a failing task, the task's error may surface in
@@ -357,14 +393,17 @@ func (k *checker) leaf(x ctx, r *bufzoo.Result) {
 // handler on top of a task) gets to compare the checksum. Either way the
 // consumer does not complete; which error wins is property C15's business.
 func (k *checker) taskErrorInstead(x ctx, r *bufzoo.Result) bool {
-	if x.taskFails && bufzoo.SameError(r.Err, bufzoo.TaskErr()) {
-		k.c.Class("task_error_preempts_buffer_error")
+	if x.taskFails && r.Err != nil {
+		k.c.ClassIf(bufzoo.SameError(r.Err, bufzoo.TaskErr()), "task_error_preempts_buffer_error")
 		return true
 	}
 	return false
 }
 
-// mismatchError: err must be the data-integrity error for this case.
+// mismatchError: err must carry the code the property states for a size or
+// hash mismatch (INVALID_ARGUMENT for client-supplied, INTERNAL for backend
+// data). Its wording, and whether a stream that is both too long and has the
+// wrong hash is called a size or a hash mismatch, are not asserted.
 func (k *checker) mismatchError(where string, err error) {
 	cs := k.cs
 	if err == nil {
@@ -373,25 +412,23 @@ func (k *checker) mismatchError(where string, err error) {
 	if status.Code(err) != cs.code {
 		k.fail("%s: mismatch reported with code %s, want %s (backend=%v): %v", where, status.Code(err), cs.code, cs.src.Backend, err)
 	}
-	want := classNames[cs.cls]
-	if got := mismatchKind(err); got != want {
-		k.fail("%s: %s mismatch (stream %d bytes, stated %d) reported as %q: %v", where, want, len(cs.stream), cs.n, got, err)
-	}
+	k.c.ClassIf(mismatchKind(err) != classNames[cs.cls], "mismatch_text_differs_from_model_kind")
 }
 
 // legitError: an error seen by a leaf that did not (have to) read to the
-// end or had invalid arguments must be one of: an argument error
-// (INVALID_ARGUMENT), the task's error, the writer's error, or the model's
-// error for this source.
+// end must have a cause: invalid arguments, a failing task, a writer that
+// fills up, unparsable content for ToProto, the source's own error, or a
+// mismatch (with the stated code). In particular matching content from a
+// source that never fails, read with valid arguments, must not yield one.
 func (k *checker) legitError(x ctx, where string, r *bufzoo.Result, argsOK bool) {
 	cs, err := k.cs, r.Err
 	switch {
-	case !argsOK && status.Code(err) == codes.InvalidArgument:
-	case x.taskFails && bufzoo.SameError(err, bufzoo.TaskErr()):
-	case cs.cls == clsOK && r.Spec.Method == bufzoo.ToProto && !k.protoParses() && status.Code(err) == codes.InvalidArgument && strings.Contains(err.Error(), "unmarshal"):
-	case bufzoo.SameError(err, bufzoo.WriterErr()) && r.Spec.Method == bufzoo.IntoWriter && r.Spec.WriterLimit >= 0:
-	case cs.cls == clsIO && bufzoo.SameError(err, cs.src.FailErr()):
-	case (cs.cls == clsSize || cs.cls == clsHash) && status.Code(err) == cs.code && mismatchKind(err) == classNames[cs.cls]:
+	case !argsOK:
+	case x.taskFails:
+	case r.Spec.Method == bufzoo.ToProto && !k.protoParses():
+	case r.Spec.Method == bufzoo.IntoWriter && r.Spec.WriterLimit >= 0:
+	case cs.src.FailAt >= 0 && bufzoo.SameError(err, cs.src.FailErr()):
+	case (cs.cls == clsSize || cs.cls == clsHash || k.mismatchKnownBeforeFailure()) && status.Code(err) == cs.code:
 	default:
 		k.fail("%s: unexpected error %v (model %s, argsValid=%v, taskFails=%v)", where, err, classNames[cs.cls], argsOK, x.taskFails)
 	}
@@ -415,18 +452,16 @@ func (k *checker) walk(x ctx, r *bufzoo.Result) {
 		}
 		x.underCopy = true
 	case bufzoo.WithTask:
-		if r.TaskRan != 1 {
-			k.fail("%stask ran %d times, want once", x.path, r.TaskRan)
-		}
+		// how often / whether the task runs is C15's business
+		k.c.ClassIf(r.TaskRan != 1, "impl_task_not_run_exactly_once")
 		if s.TaskFails {
 			x.taskFails = true
 		}
 	case bufzoo.WithErrorHandler:
 		x.underHandler = true
+		// the handler protocol (Done exactly once, ...) is C16's business
 		h := r.Handler
-		if h.DoneCalls() != 1 || h.OnErrorAfterDone() != 0 {
-			k.fail("%serror handler: Done() called %d times (want once), %d OnError calls after Done", x.path, h.DoneCalls(), h.OnErrorAfterDone())
-		}
+		k.c.ClassIf(h.DoneCalls() != 1 || h.OnErrorAfterDone() != 0, "impl_handler_done_not_exactly_once")
 	}
 	k.walk(x, r.Next)
 	if r.Next2 != nil {
@@ -456,14 +491,11 @@ func prop(rec *vstats.Recorder) func(t *rapid.T) {
 		}
 		k.walk(ctx{}, res)
 
-		// (6) source released exactly once, never used afterwards.
+		// (6) release of the source (closed exactly once, never read
+		// afterwards) is asserted by C15/C16/C04, not here: counted only.
 		if cs.src.Kind.HasCloser() {
-			if n := pr.Closes(); n != 1 {
-				k.fail("source closed %d times, want exactly once (result %s)", n, res)
-			}
-			if n := pr.ReadAfterClose(); n != 0 {
-				k.fail("source read %d times after Close", n)
-			}
+			c.ClassIf(pr.Closes() != 1, "impl_source_not_closed_exactly_once")
+			c.ClassIf(pr.ReadAfterClose() != 0, "impl_source_read_after_close")
 		}
 		// (7) integrity callback.
 		verdicts := pr.Integrity()
@@ -482,13 +514,12 @@ func prop(rec *vstats.Recorder) func(t *rapid.T) {
 			k.fail("integrity callback received a negative verdict for matching content (verdicts %v)", verdicts)
 		}
 		if cs.src.Backend {
+			// The property constrains the verdicts the callback receives,
+			// not that it is invoked: missing verdicts are counted only.
 			for _, lr := range res.Leaves() {
-				if lr.Complete && nTrue == 0 {
-					k.fail("%s completed on backend data but the integrity callback never saw a verdict", lr.Spec)
-				}
-				if lr.Err != nil && status.Code(lr.Err) == cs.code && mismatchKind(lr.Err) != "" && (cs.cls == clsSize || cs.cls == clsHash) && nFalse == 0 {
-					k.fail("%s got the data-integrity error %v but the integrity callback never saw a negative verdict", lr.Spec, lr.Err)
-				}
+				c.ClassIf(lr.Complete && nTrue == 0, "impl_completed_without_positive_verdict")
+				c.ClassIf(lr.Err != nil && status.Code(lr.Err) == cs.code && mismatchKind(lr.Err) != "" && (cs.cls == clsSize || cs.cls == clsHash) && nFalse == 0,
+					"impl_mismatch_error_without_negative_verdict")
 			}
 			c.ClassIf(len(verdicts) > 1, "callback_more_than_once")
 			c.ClassIf(nTrue > 0, "callback_true")
